@@ -240,7 +240,7 @@ pub fn prop() -> Prop {
         id: "C01",
         scenarios: vec![
             Scenario { name: "routes", f: routes, thorough_only: false,
-                bounds: "every envelope shape of <=8 elements (quick) / <=10 (thorough) from the grammar leaf | known value | wrapped | assertion | node(<=3 assertions) | decorated assertion, plus 16 hand-written larger shapes (3-4 assertions, nested nodes, obscured children, node whose subject is a node, repeated content) x 8 routes (construct; permuted insertion; encode->decode; wrap->unwrap + UR; encrypt->decrypt; compress->uncompress (whole / subject); remove->add + replace_subject; obscure any single position with any of the 3 actions) x every digest order; at every position digest() == SHA-256 rule of the specification computed with sha2 in the harness",
+                bounds: "every envelope shape of <=8 elements (quick) / <=10 (thorough) from the grammar leaf | known value | wrapped | assertion | node(<=3 assertions) | decorated assertion, plus 21 hand-written larger shapes (3-4 assertions, nested nodes, obscured children, node whose subject is a node, repeated content) x 8 routes (construct; permuted insertion; encode->decode; wrap->unwrap + UR; encrypt->decrypt; compress->uncompress (whole / subject); remove->add + replace_subject; obscure any single position with any of the 3 actions) x every digest order; at every position digest() == SHA-256 rule of the specification computed with sha2 in the harness",
                 api: &["Envelope::new", "new_assertion", "add_assertion_envelope", "wrap_envelope", "unwrap_envelope", "try_from_cbor_data", "ur_string", "from_ur_string", "encrypt_subject", "decrypt_subject", "compress", "uncompress", "compress_subject", "uncompress_subject", "remove_assertion", "replace_subject", "elide_removing_set_with_action", "walk", "digest"] },
             Scenario { name: "leaf_values", f: leaf_values, thorough_only: false,
                 bounds: "41 leaf values (unsigned/negative integer width boundaries, reducible and irreducible floats, inf/nan, NFC and non-ASCII text, byte strings, bool/null, arrays, map, tagged, dates) x 5 positions (subject, predicate, object, wrapped, object of an assertion on an assertion), constructed and decoded; expected digests are SHA-256 of hand-written dCBOR bytes. Catalogue, not solver-quantified",
